@@ -34,7 +34,7 @@ type Node struct {
 	config  *config.Config
 	logger  *log.Logger
 	db      *sqlx.DB
-	version *Version
+	version atomic.Pointer[Version] // read by several loops of one process (main, health, lag check)
 	host    string
 	uuid    uuid.UUID
 
@@ -66,7 +66,7 @@ func NewNode(config *config.Config, logger *log.Logger, host string) (*Node, err
 		logger:  logger,
 		db:      nil,
 		host:    host,
-		version: nil,
+		version: atomic.Pointer[Version]{},
 
 		done: atomic.Uint32{},
 		mu:   sync.Mutex{},
@@ -649,16 +649,16 @@ func (n *Node) ReplicaStatusWithTimeout(timeout time.Duration, channel string) (
 }
 
 func (n *Node) GetVersion() (*Version, error) {
-	if n.version != nil {
-		return n.version, nil
+	if v := n.version.Load(); v != nil {
+		return v, nil
 	}
 	v := new(Version)
 	err := n.queryRow(queryGetVersion, nil, v)
 	if err != nil {
 		return nil, err
 	}
-	n.version = v
-	return n.version, nil
+	n.version.Store(v)
+	return v, nil
 }
 
 // ReplicationLag returns slave replication lag in seconds
